@@ -23,7 +23,7 @@ out = {
     "demo_cmd": meta.get("demo_cmd"),
     "author": "independent sub-agent given only the property text and a scratch worktree",
     "author_verified": meta.get("verified"),
-    "confirmed_by_me": "tools/confirm_seeded.sh in scratch worktree /tmp/wt/confirm: patch applies; cargo test --workspace --no-fail-fast --offline = 81 passed; feature builds (backend-mmap,... and xen,...) compile; demo fails with the patch and passes without it",
+    "confirmed_by_me": "tools/confirm_seeded.sh (round 3: tools/confirm_seeded_xen.sh, xen feature set; form-2 demos are appended to src/mmap/xen.rs and run with --lib) in scratch worktree /tmp/wt/confirm: patch applies; cargo test --workspace --no-fail-fast --offline = 81 passed; feature builds (backend-mmap,... and xen,...) compile; demo fails with the patch and passes without it",
     "ran": "tools/run_seeded.sh %s <checks> (git -C /repo apply patch.diff; ./check <id> quick; git -C /repo checkout -- .)" % name,
     "caught_by": [] if caught == "none" else caught.split(","),
     "note": note,
